@@ -394,7 +394,11 @@ func main() {
 			rhs = "[" + strings.Join(qs, ", ") + "]"
 			origin = "map literal " + it.Var
 		case "const":
-			rhs = strconv.Quote(constString(f, ast.NewIdent(it.Var)))
+			cv := constString(f, ast.NewIdent(it.Var))
+			if cv == it.Var {
+				structural(fmt.Errorf("%s: constant %s with a literal value not found", it.File, it.Var))
+			}
+			rhs = strconv.Quote(cv)
 			origin = "constant " + it.Var
 		default:
 			cands, err := t.candidates(f)
@@ -420,6 +424,11 @@ func main() {
 
 type cand struct{ rhs, origin string }
 
+// extraKinds lets a group add item kinds in its own file of this package (translator/ext_<group>.go, registering in
+// an init function) without touching this file. A handler returns the candidate translations of the item (the first
+// is the preferred one) or an error, which is reported as structural.
+var extraKinds = map[string]func(t *tr, f *ast.File) ([]cand, error){}
+
 // tieTactic closes `@gen = @model`: `rfl` when the Go expression has the surface form the model records; otherwise the
 // two are proved extensionally equal (linear integer arithmetic + propositional structure), so a semantically
 // equivalent rewrite of the Go expression keeps the tie and any other breaks it.
@@ -443,6 +452,9 @@ func (t *tr) candidates(f *ast.File) ([]cand, error) {
 			return nil, err
 		}
 		return []cand{{rhs, "body of " + it.Func}}, nil
+	}
+	if h, ok := extraKinds[it.Kind]; ok {
+		return h(t, f)
 	}
 	if it.Kind != "ifcond" && it.Kind != "funclit" && it.Kind != "forcond" {
 		return nil, fmt.Errorf("unknown kind %s", it.Kind)
